@@ -44,6 +44,13 @@ Clauses(r) ==
       [] r.k = "levelO"    -> << <<"R=transpose(P)", r.errR <= -12000>>, <<"Ac=R*A*P", r.errAc <= -12000>> >>
       [] r.k = "repart"    -> << <<"RepartitionOK", RepartitionOK(r.np, r.Ac, r.I, r.An, r.ratio)>> >>
       [] r.k = "direct"    -> DirectClauses(r)
+      \* one object: construct(allow_rebuild) with A, rebuild(4 A), apply / solve  vs  a hierarchy freshly built from 4 A
+      [] r.k = "rebuild"   -> << <<"rebuilt-cycle=fresh-hierarchy", r.err <= -10000>>,
+                                 <<"rebuilt-iterations=fresh-hierarchy", Abs(r.it_rebuilt - r.it_fresh) <= 1>>,
+                                 <<"residual-bitwise-identical-on-all-ranks", Len(r.resbits_rebuilt) = r.np /\ AllSame(r.resbits_rebuilt)>> >>
+      \* block smoothed aggregation, non-commuting coupling blocks, zero block row sums
+      [] r.k = "blocksa"   -> << <<"block-constants-reproduced", r.aggregated > 0 /\ r.errSum <= -12000>>,
+                                 <<"R=transpose(P)", r.errR <= -12000>>, <<"Ac=R*A*P", r.errAc <= -12000>> >>
       [] r.k = "solve"     -> SolveClauses(r)
       [] r.k = "msgs"      -> << <<"FifoMatch", FifoMatch(r.log.ev)>>,
                                  <<"Completed", Completed(r.log.ev) /\ (\A q \in 1..Len(r.log.open) : r.log.open[q] = 0 /\ r.log.lost[q] = 0)>>,
